@@ -287,7 +287,7 @@ RECIPES = {
               # roll-overs then happen with unflushed frames pending)
               # (aim-span: entries of 1.1 to 3.2 files started 0..8 bytes before a file end, a GC pass run by another
               # queue while they are retained, restarts: an entry must come back whole from all the files it spans)
-              dict(cmd="run", gen="aim-block:60,boundary:40,big:10,aim-span:24", policy="always_flush,do_nothing", monitors={"C01", "C05", "C15"})],
+              dict(cmd="run", gen="aim-block:60,boundary:40,big:10,aim-span:100", policy="always_flush,do_nothing", monitors={"C01", "C05", "C15"})],
         rule="record layer in memory: the real RecordWriter over a logging block writer and the real RecordReader, start "
              "cursors at every boundary class (thorough: all 32768 in-block offsets) x 1-3 entry lengths chosen relative to "
              "the cursor (0, 1, fills the frame exactly, +-1, one and two more blocks, > 1 file, ~300 KB): layout compared "
